@@ -26,7 +26,14 @@ def weights(sr):
     prod = 1
     for a in sr:
         prod *= a * a
-    return [16 * prod // (a * a) for a in sr], prod
+    w, B = [16 * prod // (a * a) for a in sr], prod
+    # common factor removed (a positive factor changes nothing: Props/C03 scale_invariant); keeps the
+    # numbers of fine-lattice movies inside int64 for the scipy oracle
+    import math
+    g = B
+    for x in w:
+        g = math.gcd(g, x)
+    return [x // g for x in w], B // g
 
 
 def scale_of(inp):
